@@ -591,3 +591,35 @@ def run_loop_fresh(prog, rep):
                                '%s is declared outside the loop and %s only appends to it: from the second element on it still begins with the entries of the first element, so the verdict for later elements is taken from the first one' % (v.get('name'), c.callee.get('name')))
     rule.ok('valid|scan', 'src/valid', 'nix::valid::*', '%d out-parameter refills inside element loops' % n, nontrivial=False)
     return rule
+
+
+def run_sorted_agree(prog, rep):
+    """the validator's sortedness test is the test the tick setters apply: what the API accepts, the validator accepts"""
+    rule = rep.rule('R-VALID-SORTED', 'the validator check isSorted and the tick setters (RangeDimension::ticks, DataArray::appendRangeDimension) decide sortedness with the same predicate: std::is_sorted over the whole range with the same comparator', floor=3)
+    sites = []
+    for f in sorted(prog.funcs.values(), key=lambda f: (f.file, f.line, f.q)):
+        if f.body is None or not f.q.startswith('nix::') or f.q.startswith('nix::hdf5::'):
+            continue
+        for c in f.calls():
+            if (c.callee or {}).get('name') in ('is_sorted', 'is_sorted_until', 'adjacent_find') and (c.callee.get('q') or '').startswith('std::'):
+                a = [x for x in real_args(c) if x is not None]
+                comp = None
+                if len(a) > 2:
+                    comp = re.sub(r'\s+', '', a[2].src(80))
+                whole = len(a) >= 2 and 'begin' in a[0].src(40) and 'end' in a[1].src(40)
+                sites.append((f, c, c.callee.get('name'), comp, whole))
+    val = [s for s in sites if s[0].q.startswith('nix::valid::isSorted')]
+    api = [s for s in sites if not s[0].q.startswith('nix::valid::')]
+    if not val or len(api) < 2:
+        raise AnalysisBroken('R-VALID-SORTED: sortedness tests not found (validator %d, setters %d)' % (len(val), len(api)))
+    ref = (api[0][2], api[0][3])
+    seen = set()
+    for f, c, nm, comp, whole in sites:
+        key = '%s|%s' % (re.sub(r'<.*', '', f.q), nm)
+        if key in seen:
+            continue
+        seen.add(key)
+        rule.check((nm, comp) == ref and whole, key, rep.where(c), f.label(), '%s over [begin, end) with %s' % (nm, comp or 'the default comparator'),
+                   '%s decides sortedness with %s(%s)%s while %s uses %s(%s): tick lists with equal neighbours (or another order) are accepted by one and rejected by the other' % (
+                       f.q.split('::')[-2] if f.q.endswith('operator()') else f.name, nm, comp or 'default <', '' if whole else ' on a part of the range', api[0][0].name, ref[0], ref[1] or 'default <'))
+    return rule
